@@ -58,3 +58,9 @@ claim(
     "Seeded random populations (plain / value-equal / unhashable / list and dict subclasses / inheriting / overriding / decorated / property classes, with equal-but-distinct twins) x selectors through class, object, dotted path, decorator and property x random call sequences incl. a namesake module-level function; each selector's stream must be exactly the calls executing that function (class form) or whose receiver IS the object (object form, receiver reported). Held-on-observed.",
     "Unique call arguments identify calls; properties are selected through the class.",
 )
+claim(
+    "C01",
+    "differential execution monitor: generated programs run untouched vs under each instrumentation configuration, comparing result / exception / generator protocol trace / ordered side-effect log / argument, global and closure-cell state; plus an InteractLog monitor on Interactor.interact",
+    "Seeded random exploration of (program, input, configuration) triples from a generator covering every statement form in the quantifier (67 feature flags incl. non-indexable and one-shot iterables, starred/nested targets, side-effecting sub-expressions, generators driven by next/send/throw/close/drop scripts, closures with nonlocal writes) under tooled / tooled.inplace / 1-3 non-overriding probes over variable subsets (all subsets for <=5 names in the thorough tier) / raw overlays / after deactivation. Held-on-observed.",
+    "Plain and twin renderings are cross-checked for equal outcomes by the generator's self-test; exception messages and function reprs are normalised; bare annotations and globals rebound during the call are excluded (documented exceptions).",
+)
